@@ -68,8 +68,17 @@ Clauses(e) ==
         <<"M.addline", (ok /\ m.exc = "") => m.addline = lib.addline>>
        >>
 
+\* a code object too large for TLC's sequences: the harness decided the clauses with dis + PyCode_Addr2Line
+\* (wk/decode.direct_event); they are only named here
+Direct(e) ==
+    LET ok == e.exc = "" IN
+    << <<"P02.count", ok => e.count>>, <<"P02.names", (ok /\ e.count) => e.names>>,
+       <<"P02.operands", (ok /\ e.count) => e.operands>>, <<"P02.jumps", (ok /\ e.count) => e.jumps>>,
+       <<"P02.lines", (ok /\ e.count) => e.lines>>, <<"P13.partition", ok => e.partition>>,
+       <<"P13.targets", (ok /\ e.count) => e.targets>>, <<"P13.jump_range", ok => e.jump_range>> >>
+
 Failing(e) ==
-    LET cs == Clauses(e)
+    LET cs == IF ("kind" \in DOMAIN e) /\ e.kind = "direct" THEN Direct(e) ELSE Clauses(e)
     IN SelectSeq([i \in DOMAIN cs |-> IF cs[i][2] THEN "" ELSE cs[i][1]], LAMBDA x: x # "")
 
 Init == l = 1
